@@ -187,6 +187,7 @@ Malformed(e) ==
      IF ok /\ ValsKnown(e) /\ Len(e.vals) > 0 /\ ~e.valsexa THEN "valsexact_na" ELSE "",
      IF ok /\ FacExDemanded(e) /\ e.has1 /\ ~e.facexa THEN "factorexact_na" ELSE "",
      IF ok /\ InvarExpected(e) /\ e.has2 /\ e.pat2["any"] /\ ~e.invara THEN "invariant_na" ELSE "",
+     IF ok /\ CondKnown(e.gen) /\ ~e.condtol THEN "condtol_na" ELSE "",
      IF (~ok) /\ (e.has1 \/ e.has2 \/ e.has3 \/ Len(e.vals) > 0) THEN "results_with_error" ELSE ""} : x # ""}
 
 Verdict(e) ==
